@@ -1,6 +1,7 @@
 package main
 
 import (
+	"github.com/crate-crypto/go-ipa/ipa"
 	"bufio"
 	"fmt"
 	"os"
@@ -16,6 +17,13 @@ func usage() {
 }
 
 func main() {
+	// history mode: derive a short CRS prefix before anything else touches the configuration (a memoised /
+	// resumable CRS derivation must still give NewIPASettings the published 256 points afterwards)
+	if v := os.Getenv("VERIF_CRS_FIRST"); v != "" {
+		if k, err := strconv.Atoi(v); err == nil && k > 0 {
+			_ = ipa.GenerateRandomPoints(uint64(k))
+		}
+	}
 	if len(os.Args) < 2 {
 		usage()
 	}
